@@ -65,7 +65,10 @@ MsgRowDesc(cols, codes) ==
     [t |-> "T", wf |-> TRUE, n |-> Len(cols),
      names |-> [i \in DOMAIN cols |-> cols[i].name],
      oids  |-> [i \in DOMAIN cols |-> cols[i].oid],
-     fmts  |-> Formats(codes, Len(cols))]
+     fmts  |-> Formats(codes, Len(cols)),
+     \* table and attribute numbers as the handler's column definitions give them (the scripted handlers leave
+     \* them unset): the library neither invents nor remembers them
+     tables |-> [i \in DOMAIN cols |-> 0], attrs |-> [i \in DOMAIN cols |-> 0]]
 
 MsgParamDesc(oids) == [t |-> "t", wf |-> TRUE, n |-> Len(oids), oids |-> oids]
 
